@@ -32,7 +32,7 @@ Lemma step_logs c s m :
    ∃ x, donated s' = x :: donated s ∧ ((0 < x.2)%Z ∨ ∃ w, w ∈ L2.wlog (l2 s) ∧ x.2 = L2.w_amt w)).
 Proof.
   cbn zeta.
-  destruct m as [e sender to d amt data|e from to d amt|m2|k ex h hook|e p idx l2b lo hi v bh|e ch idx|e sender idx m lo hi v bh];
+  destruct m as [e sender to d amt data|e from to d amt|m2|k ex h hook|e p idx l2b lo hi v bh|e ch idx|e sender idx m lo hi v bh|e m1];
     cbn [sys_step].
   - (* deposit *)
     case_bool_decide; [cbn; auto|]. unfold lift1, L1.step. cbn [L1.handle].
@@ -72,6 +72,11 @@ Proof.
     apply l1_finalize_effect in Hd as (rcv & _ & _ & _ & Hel & _ & _).
     cbn [fst set_l1 l1 l2 donated]. split; [left; by apply bevents_same|].
     case_bool_decide; [|auto]. right. eexists. split; [done|]. right. exists w. done.
+  - (* role / config / environment message *)
+    destruct (l1_admin m1) eqn:Ha; [|cbn; auto]. unfold lift1, L1.step.
+    destruct (L1.handle (c1 c) e (l1 s) m1) as [[s1 r]|] eqn:Hh; [|cbn; auto].
+    apply (l1_admin_frame _ _ _ _ _ _ Ha) in Hh as (_ & Hel & _ & _). cbn [fst set_l1 l1 l2 donated].
+    split; [left; by apply bevents_same|auto].
 Qed.
 
 Definition l2ok (c : scfg) (s : sys) : Prop := C04Proofs.inv (c2 c) (l2 s).
@@ -97,7 +102,7 @@ Lemma step_l2ok c s m :
   L2.resolve (c2 c) [] = None → nonneg c s → l2ok c s → l2ok c (sys_step c s m).1.
 Proof.
   intros Hnil [N1 _] Hok. unfold l2ok in *.
-  destruct m as [e sender to d amt data|e from to d amt|m2|k ex h hook|e p idx l2b lo hi v bh|e ch idx|e sender idx m lo hi v bh];
+  destruct m as [e sender to d amt data|e from to d amt|m2|k ex h hook|e p idx l2b lo hi v bh|e ch idx|e sender idx m lo hi v bh|e m1];
     cbn [sys_step].
   - case_bool_decide; [done|]. unfold lift1. destruct (L1.step _ _ _ _) as [s1 [r|]]; done.
   - case_bool_decide; [done|]. unfold lift1. destruct (L1.step _ _ _ _) as [s1 [r|]]; [|done].
@@ -113,6 +118,7 @@ Proof.
   - unfold lift1. destruct (L1.step _ _ _ _) as [s1 [r|]]; done.
   - unfold lift1. destruct (L1.step _ _ _ _) as [s1 [r|]]; done.
   - destruct (find_w (l2 s) m) as [w|]; [|done]. unfold lift1. destruct (L1.step _ _ _ _) as [s1 [r|]]; done.
+  - destruct (l1_admin m1); [|done]. unfold lift1. destruct (L1.step _ _ _ _) as [s1 [r|]]; done.
 Qed.
 
 Lemma run_ok c h : ∀ s, L2.resolve (c2 c) [] = None → nonneg c s → l2ok c s →
